@@ -248,6 +248,9 @@ def check_diag(prop, tier, seed, collect=False):
             srcs.append("".join(s))
     corpus = corpus_sources(wd)
     srcs += corpus
+    # span-arithmetic stress: multi-byte whitespace before an expression, quoted multi-byte fields in assignment targets
+    srcs += ["x =\u00a0to_string(.a)", "x = 1\nx.\"é\\\"\\\"\" = 2", ".\"é\".b = to_int(.a)", "é = 1\né.a.b = 2\né.a = 3", "x = 1\nx.é = to_int(.é)",
+             "\u00a0.a = to_int(.b)", "if\u00a0.é { 1 }", "[1,\u00a0to_int(.é)]", "upcase(\u00a0.é\u00a0)", "{ \"é\": to_int(.a) }"]
     nmut = 12000 if tier == "quick" else 150000
     for _ in range(nmut):
         m = mutate(rnd.choice(corpus), tokens, rnd)
